@@ -51,7 +51,7 @@ func TestC19Binary(t *testing.T) {
 		t.Skip("no local addresses")
 	}
 	idBase := 0
-	rapid.Check(t, func(rt *rapid.T) {
+	check(t, func(rt *rapid.T) {
 		// a pool of its own per case: hosts of earlier cases would stay "active" for two minutes and crowd the
 		// candidate list of the client's peer request
 		p := startPoolOn(rt, "[::]")
